@@ -5,10 +5,10 @@ From Coq Require Import Reals Lra List ZArith.
 Set Warnings "-ambiguous-paths".   (* Coquelicot's Rbar coercion notice would otherwise end up in the Print Assumptions output *)
 From Coquelicot Require Import Coquelicot.
 From PV Require Import Np.NpR Gen.GenHandles Proofs.C12Handles Proofs.C12NegBinRefuted.
-From PV Require Import Base.Index Base.Sum Np.Array Model.Repr Model.C12Gcp Proofs.C12Tensor Proofs.C12TensorR Proofs.C12Mttkrps Proofs.C12Setup Proofs.C12GenTie Proofs.C12Reshape Proofs.C12KrTie Proofs.C12Lambda Proofs.C12Weighted.
+From PV Require Import Base.Index Base.Sum Np.Array Model.Repr Model.C12Gcp Proofs.C12Tensor Proofs.C12TensorR Proofs.C12Mttkrps Proofs.C12Setup Proofs.C12GenTie Proofs.C12Reshape Proofs.C12KrTie Proofs.C12Lambda Proofs.C12Weighted Proofs.C12Wrap Proofs.C12EstGrad Proofs.C12EvalBytes Proofs.C12EndToEnd Proofs.C12LambdaR.
 From PV Require Model.Harness Model.C12Harness Proofs.C12LambdaZ.
 From PV Require Model.C02Dense Proofs.C02DenseProofs.
-From PV Require Gen.GenFgSetup Gen.GenKernels.
+From PV Require Gen.GenFgSetup Gen.GenKernels Gen.GenKernels3 Proofs.C12GenMttv Proofs.C12GenMttvPy.
 From PV Require Import Np.NpZ.
 Import List.   (* List.nth again in front of Coquelicot's *)
 Import ListNotations.
@@ -87,12 +87,13 @@ Variables (v0 v1 : V) (vadd vmul vsub : V -> V -> V) (vopp : V -> V).
 Hypothesis Vring : ring_theory v0 v1 vadd vmul vsub vopp (@eq V).
 
 (* the objective evaluate returns is the (optionally weighted) sum of the loss over all entries: this is the
-   definition of the model (eval_F), tied to fg.evaluate by the correspondence stream *)
+   DEFINITION of the model (eval_F; the lemma only unfolds it), its content is the tie of eval_F to fg.evaluate by the
+   correspondence stream (ops evaluate / evaluate_struct / estimate_full, all weight-array layouts) *)
 Theorem C12_objective : forall (f : V -> V -> V) (K : ktensor V) (X : dense V) (w : option (dense V)),
   eval_F v0 v1 vadd vmul f K X w =
   sum_over v0 vadd (allsubs (dshape X))
     (fun i => vmul (f (den_dense v0 X i) (den_k v0 v1 vadd vmul K i)) (wget v0 v1 w i)).
-Proof. reflexivity. Qed.
+Proof. exact (eval_F_is_weighted_sum V v0 v1 vadd vmul). Qed.
 
 (* the model tensor is linear in each factor matrix *)
 Theorem C12_multilinear : forall (K : ktensor V) k A H I R i,
@@ -121,11 +122,7 @@ Theorem C12_estimate_exact : forall (f g : V -> V -> V) (As : list (list (list V
     eval_F v0 v1 vadd vmul f (mkK (repeat v1 R) As) X None /\
   est_G v0 v1 vadd vmul vsub g As R (allsubs (dshape X)) (ddata X) (repeat v1 (size (dshape X))) nil (dshape X) =
     eval_G v0 v1 vadd vmul g (mkK (repeat v1 R) As) X None.
-Proof.
-  intros f g As R X W E.
-  exact (conj (estimate_exact_F V v0 v1 vadd vmul vsub vopp Vring f As R X W E)
-              (estimate_exact_G V v0 v1 vadd vmul vsub vopp Vring g As R X W E)).
-Qed.
+Proof. exact (estimate_exact_FG V v0 v1 vadd vmul vsub vopp Vring). Qed.
 
 (* computing all mode gradients at once = one mode at a time: the split / partial-contraction algorithm of tensor.mttkrps
    (left sweep over modes 0..sp with mttv_mid / mttv_left, right sweep over sp+1..N-1; Proofs/C12Mttkrps.v) returns, for EVERY
@@ -159,6 +156,21 @@ Theorem C12_mttkrps_bytes_py : forall (T : dense V) (As : list (list (list V))) 
   map (mttkrp_den v0 v1 vadd vmul (dshape T) (den_dense v0 T) As R) (seq 0 (length (dshape T))).
 Proof. exact (Proofs.C12Reshape.C12_mttkrps_bytes_py V v0 v1 vadd vmul vsub vopp Vring). Qed.
 
+(* ---- the BYTE-LEVEL form of fg.evaluate (Proofs/C12EvalBytes.v): data, model.full() and the weight array as flat F-order value lists,
+   `Y = handle(data.data, full_model.data); Y *= weights` position by position, `F = np.sum(Y)` the sum of the flat list,
+   `G = tensor(Y).mttkrps(factor_matrices)` the byte-level mttkrps of the flat list — equal to the subscript-level model eval_F / eval_G
+   for every well-formed data / weight array, every loss and derivative handle (G: positive sizes, every admissible split index) *)
+Theorem C12_evaluate_bytes_F : forall (f : V -> V -> V) (K : ktensor V) (X : dense V) (w : option (dense V)),
+  wf_dense X -> w_ok V (dshape X) w ->
+  evaluate_F_b V v0 v1 vadd vmul f K X w = eval_F v0 v1 vadd vmul f K X w.
+Proof. exact (evaluate_F_bytes V v0 v1 vadd vmul vsub vopp Vring). Qed.
+
+Theorem C12_evaluate_bytes_G : forall (g : V -> V -> V) (K : ktensor V) (X : dense V) (w : option (dense V)) (sp : nat),
+  wf_dense X -> w_ok V (dshape X) w -> Forall (fun d => 1 <= d)%nat (dshape X) ->
+  fdims V (krank K) (kfactors K) (dshape X) -> (S sp < length (dshape X))%nat ->
+  evaluate_G_b V v0 v1 vadd vmul g K X w sp = eval_G v0 v1 vadd vmul g K X w.
+Proof. exact (evaluate_G_bytes V v0 v1 vadd vmul vsub vopp Vring). Qed.
+
 (* ---- fg_est.estimate with lambda_check: `if lambda_check and any(weights != 1): model = model.normalize(0)` (Proofs/C12Lambda.v) ----
    estimate_helper reads only the factor matrices.  For EVERY rescaling of the factor columns (column r of factor k times cs_k[r]) whose
    product over the modes is the component weight — what normalize(0) performs — the values it computes are those of the weighted model *)
@@ -191,11 +203,7 @@ Theorem C12_lambda_exact : forall (f g : V -> V -> V) (cs : list (list V)) (As :
         (dshape X) =
     map (mttkrp_den v0 v1 vadd vmul (dshape X) (eval_Y v0 v1 vadd vmul g (mkK lam As) X None) (scale_all V vmul cs As) (length lam))
         (seq 0 (length (dshape X))).
-Proof.
-  intros f g cs As lam Hc Hp X HX Hs.
-  exact (conj (lambda_exact_F V v0 v1 vadd vmul vsub vopp Vring f cs As lam Hc Hp X HX Hs)
-              (lambda_exact_G V v0 v1 vadd vmul vsub vopp Vring g cs As lam Hc Hp X HX Hs)).
-Qed.
+Proof. exact (lambda_exact_FG V v0 v1 vadd vmul vsub vopp Vring). Qed.
 
 (* ... which are the MTTKRPs with the original factors times the complementary column factors (prod over l <> k of cs_l[r]) *)
 Theorem C12_lambda_mttkrp_scale : forall (cs : list (list V)) (As : list (list (list V))) (lam : list V),
@@ -219,6 +227,8 @@ Print Assumptions C12_mttkrps_eq.
 Print Assumptions C12_mttkrps_py_eq.
 Print Assumptions C12_mttkrps_bytes.
 Print Assumptions C12_mttkrps_bytes_py.
+Print Assumptions C12_evaluate_bytes_F.
+Print Assumptions C12_evaluate_bytes_G.
 Print Assumptions C12_objective.
 Print Assumptions C12_multilinear.
 Print Assumptions C12_adjoint.
@@ -260,8 +270,53 @@ Theorem C12_gradient_poisson : forall (K : ktensor R) (X : dense R) (w : option 
   is_derive (fun t => eval_F 0 1 Rplus Rmult poisson (kset R K k (mset (nth k (kfactors K) nil) j r t)) X w)
             (mget 0 (nth k (kfactors K) nil) j r)
             (mget 0 (nth k (eval_G 0 1 Rplus Rmult poisson_grad K X w) nil) j r).
-Proof. intros K X w k j r. exact (eval_gradient_lb 0 poisson poisson_grad K X w k j r (fun x m H => poisson_deriv x m H)). Qed.
+Proof. exact eval_gradient_poisson. Qed.
 Print Assumptions C12_gradient_poisson.
+
+(* ---- the sampled estimator: the matrices fg_est.estimate returns ARE the partial derivatives of the estimated objective in every
+   factor entry (Proofs/C12EstGrad.v) — every sample set inside the model's shape (repeats allowed), any sample values and weights,
+   any correction range, every loss whose gradient handle is its derivative on m >= lb with the model respecting the bound at the
+   sampled subscripts.  estimate_helper reads only the factor matrices: no condition on component weights *)
+Theorem C12_estimate_gradient : forall (lb : R) (f g : R -> R -> R) (As : list (list (list R))) (Rk : nat) (subs : list idx)
+    (xs ws : list R) (crng : list nat) (k j r : nat),
+  (forall x m, lb <= m -> is_derive (fun m => f x m) m (g x m)) ->
+  (forall i, In i subs -> lb <= fac_val 0 1 Rplus Rmult As Rk i) ->
+  C12EstGrad.rows_len Rk As -> (k < length As)%nat -> (j < nrows (nth k As nil))%nat -> (r < Rk)%nat ->
+  Forall (fun i => inb (map (@nrows R) As) i = true) subs ->
+  is_derive (fun t => est_F 0 1 Rplus Rmult Rminus f (upd As k (mset (nth k As nil) j r t)) Rk subs xs ws crng)
+            (mget 0 (nth k As nil) j r)
+            (mget 0 (nth k (est_G 0 1 Rplus Rmult Rminus g As Rk subs xs ws crng (map (@nrows R) As)) nil) j r).
+Proof. exact est_gradient_lb. Qed.
+Print Assumptions C12_estimate_gradient.
+
+Theorem C12_estimate_gradient_all : forall (f g : R -> R -> R) (As : list (list (list R))) (Rk : nat) (subs : list idx)
+    (xs ws : list R) (crng : list nat) (k j r : nat),
+  (forall x m, is_derive (fun m => f x m) m (g x m)) ->
+  C12EstGrad.rows_len Rk As -> (k < length As)%nat -> (j < nrows (nth k As nil))%nat -> (r < Rk)%nat ->
+  Forall (fun i => inb (map (@nrows R) As) i = true) subs ->
+  is_derive (fun t => est_F 0 1 Rplus Rmult Rminus f (upd As k (mset (nth k As nil) j r t)) Rk subs xs ws crng)
+            (mget 0 (nth k As nil) j r)
+            (mget 0 (nth k (est_G 0 1 Rplus Rmult Rminus g As Rk subs xs ws crng (map (@nrows R) As)) nil) j r).
+Proof. exact est_gradient. Qed.
+Print Assumptions C12_estimate_gradient_all.
+
+(* ---- lambda_check: the rescaling ktensor.normalize(0) performs (Proofs/C12LambdaR.v) — columns divided by numbers n_k[r], the weight
+   times their product absorbed into mode 0 — satisfies the product hypothesis of C12_lambda_values / _estimate / _exact for every
+   component all of whose n_k[r] are nonzero (that they are the 2-norms is not needed; zero-norm columns: correspondence only) *)
+Theorem C12_lambda_normalize0 : forall (lam : list R) (ns : list (list R)) (r : nat),
+  ns <> nil -> (r < length lam)%nat -> Forall (fun n => nth r n 0 <> 0) ns ->
+  cprod R 0 1 Rmult (normalize0_cs lam ns) r = nth r lam 0.
+Proof. exact normalize0_cs_prod. Qed.
+Print Assumptions C12_lambda_normalize0.
+
+(* ... hence the model values estimate_helper computes from the factors normalize(0) leaves behind are those of the weighted model *)
+Theorem C12_lambda_values_normalize0 : forall (lam : list R) (ns : list (list R)) (As : list (list (list R))) (i : idx),
+  As <> nil -> length ns = length As ->
+  (forall r, (r < length lam)%nat -> Forall (fun n => nth r n 0 <> 0) ns) ->
+  inb (map (@nrows R) As) i = true ->
+  fac_val 0 1 Rplus Rmult (scale_all R Rmult (normalize0_cs lam ns) As) (length lam) i = den_k 0 1 Rplus Rmult (mkK lam As) i.
+Proof. exact lambda_values_normalize0. Qed.
+Print Assumptions C12_lambda_values_normalize0.
 
 (* ---- finding C12-W1 (open, known): models WITH component weights ------------------------------------------------------------
    for every weight vector the exact partial derivative of the objective in entry (j, r) of factor k is
@@ -329,7 +384,7 @@ Theorem C12_setup_table :
   map data_check objectives = [AnyData; Binary; Binary; Natural; Natural; Positive; Positive; AnyData; Positive; Positive] /\
   map needs_param objectives = [false; false; false; false; false; false; false; true; true; true] /\
   (forall d h, value_ok d false h = true -> valid_value d (IZR h / 2)).
-Proof. exact (conj (proj1 setup_bounds_table) (conj (proj1 (proj2 setup_bounds_table)) (conj (proj2 (proj2 setup_bounds_table)) value_ok_sound))). Qed.
+Proof. exact setup_table_full. Qed.
 Print Assumptions C12_setup_table.
 
 (* ---- tie A for the table and for the split index: the same over the files generated from the source on this run ---- *)
@@ -340,6 +395,37 @@ Theorem C12_setup_generated_sound : forall o data p fh gh lb,
   forall x m, lb_ok lb m -> is_derive (fun m => fh x m) m (gh x m).
 Proof. exact gen_setup_sound. Qed.
 Print Assumptions C12_setup_generated_sound.
+
+(* T1 and T2 composed through the generated table (Proofs/C12EndToEnd.v): whatever (loss, gradient, bound) the GENERATED setup returns
+   (any objective but negative binomial), the matrices fg.evaluate returns with that gradient handle are the exact partial derivatives of
+   the objective it returns with that loss handle — unit-weight models whose entries respect the returned bound, any data, any weight array *)
+Theorem C12_evaluate_setup_generated :
+  forall (o : GenFgSetup.Objectives) (data : option GenFgSetup.datachk) (p : option R) (fh gh : R -> R -> R) (lb : GenFgSetup.lbound)
+         (K : ktensor R) (X : dense R) (w : option (dense R)) (k j r : nat),
+  o <> GenFgSetup.NEGATIVE_BINOMIAL -> gparam_ok o p -> GenFgSetup.setup o data p = Some (fh, gh, lb) ->
+  (forall i, inb (kshape K) i = true -> lb_ok lb (den_k 0 1 Rplus Rmult K i)) ->
+  (forall q, (q < krank K)%nat -> nth q (kweights K) 0 = 1) ->
+  wf_k K -> (k < length (kfactors K))%nat -> (j < nrows (nth k (kfactors K) nil))%nat -> (r < krank K)%nat ->
+  dshape X = kshape K ->
+  is_derive (fun t => eval_F 0 1 Rplus Rmult fh (kset R K k (mset (nth k (kfactors K) nil) j r t)) X w)
+            (mget 0 (nth k (kfactors K) nil) j r)
+            (mget 0 (nth k (eval_G 0 1 Rplus Rmult gh K X w) nil) j r).
+Proof. exact evaluate_gradient_setup_generated. Qed.
+Print Assumptions C12_evaluate_setup_generated.
+
+(* ... and the matrices fg_est.estimate returns are the exact partial derivatives of the estimated objective, every sample set *)
+Theorem C12_estimate_setup_generated :
+  forall (o : GenFgSetup.Objectives) (data : option GenFgSetup.datachk) (p : option R) (fh gh : R -> R -> R) (lb : GenFgSetup.lbound)
+         (As : list (list (list R))) (Rk : nat) (subs : list idx) (xs ws : list R) (crng : list nat) (k j r : nat),
+  o <> GenFgSetup.NEGATIVE_BINOMIAL -> gparam_ok o p -> GenFgSetup.setup o data p = Some (fh, gh, lb) ->
+  (forall i, In i subs -> lb_ok lb (fac_val 0 1 Rplus Rmult As Rk i)) ->
+  C12EstGrad.rows_len Rk As -> (k < length As)%nat -> (j < nrows (nth k As nil))%nat -> (r < Rk)%nat ->
+  Forall (fun i => inb (map (@nrows R) As) i = true) subs ->
+  is_derive (fun t => est_F 0 1 Rplus Rmult Rminus fh (upd As k (mset (nth k As nil) j r t)) Rk subs xs ws crng)
+            (mget 0 (nth k As nil) j r)
+            (mget 0 (nth k (est_G 0 1 Rplus Rmult Rminus gh As Rk subs xs ws crng (map (@nrows R) As)) nil) j r).
+Proof. exact estimate_gradient_setup_generated. Qed.
+Print Assumptions C12_estimate_setup_generated.
 
 (* the hand table of Proofs/C12Setup.v is the generated one: handles, bound, parameter requirement, data-check column *)
 Theorem C12_setup_table_generated : forall o p,
@@ -355,7 +441,7 @@ Theorem C12_setup_table_generated : forall o p,
      | AnyData => true | Binary => GenFgSetup.valid_binary d | Natural => GenFgSetup.valid_natural d
      | Positive => GenFgSetup.valid_nonneg d
      end = false).
-Proof. exact (fun o p => conj (hand_table_is_generated o p) (hand_data_check_is_generated o p)). Qed.
+Proof. exact setup_table_generated_full. Qed.
 Print Assumptions C12_setup_table_generated.
 
 (* the split index of C12_mttkrps_py_eq is the one the GENERATED tensor.min_split returns *)
@@ -370,6 +456,62 @@ Theorem C12_khatrirao_generated : forall (R : nat) (Bs : list (list (list Z))),
   GenKernels.khatrirao Bs true = NpZ.Ok (C02Dense.kr_rev Z.mul Bs).
 Proof. exact khatrirao_generated_kr_rev. Qed.
 Print Assumptions C12_khatrirao_generated.
+
+(* ---- tensor.mttkrps over the GENERATED helpers (Gen/GenKernels3.v mttv_left / mttv_mid, Gen/GenKernels.v khatrirao, regenerated from
+   pyttb/tensor.py and pyttb/khatrirao.py on this run; Proofs/C12GenMttv.v) ---------------------------------------------------------
+   the generated mttv_left returns the byte-level contraction of the leading mode (mttv_left_b of C12_mttkrps_bytes): every partial
+   result W with d * m rows and R >= 1 columns, every factor matrix with d >= 1 rows and R columns *)
+Theorem C12_mttv_left_generated : forall (W U1 : list (list Z)) (R d m : nat),
+  (1 <= R)%nat -> (1 <= d)%nat -> length U1 = d -> C02DenseProofs.wf_cols Z R U1 -> length W = (d * m)%nat -> C02DenseProofs.wf_cols Z R W ->
+  GenKernels3.mttv_left W U1 = NpZ.Ok (mttv_left_b Z 0%Z Z.add Z.mul W U1).
+Proof. exact C12GenMttv.mttv_left_generated. Qed.
+Print Assumptions C12_mttv_left_generated.
+
+(* the generated mttv_mid (which calls the generated khatrirao) returns the byte-level contraction of all trailing modes at once *)
+Theorem C12_mttv_mid_generated : forall (W : list (list Z)) (Bs : list (list (list Z))) (R m : nat),
+  (1 <= R)%nat -> Bs <> nil -> Forall (fun B => B <> nil /\ C02DenseProofs.wf_cols Z R B) Bs ->
+  length W = (m * length (C02Dense.kr_rev Z.mul Bs))%nat -> C02DenseProofs.wf_cols Z R W ->
+  GenKernels3.mttv_mid W Bs = NpZ.Ok (mttv_mid_b Z 0%Z Z.add Z.mul W Bs).
+Proof. exact C12GenMttv.mttv_mid_generated. Qed.
+Print Assumptions C12_mttv_mid_generated.
+
+(* the body of tensor.mttkrps with every mttv_left / mttv_mid / khatrirao call going to the generated functions (mttkrps_g: only the
+   two initial reshape(...).dot(K) contractions and the two `for` sweeps are hand-transliterated) returns Ok of the per-mode MTTKRPs
+   of the array the flat F-order list denotes: every well-formed integer array with positive sizes, R >= 1, EVERY split index *)
+Theorem C12_mttkrps_generated : forall (T : dense Z) (As : list (list (list Z))) (R sp : nat),
+  (1 <= R)%nat -> wf_dense T -> Forall (fun d => 1 <= d)%nat (dshape T) -> fdims Z R As (dshape T) -> (S sp < length (dshape T))%nat ->
+  C12GenMttv.mttkrps_g (ddata T) As sp =
+  NpZ.Ok (map (mttkrp_den 0%Z 1%Z Z.add Z.mul (dshape T) (den_dense 0%Z T) As R) (seq 0 (length (dshape T)))).
+Proof. exact C12GenMttv.mttkrps_generated. Qed.
+Print Assumptions C12_mttkrps_generated.
+
+(* ... as called, at split_idx = min_split(self.shape) (= the generated min_split, C12_min_split_generated) *)
+Theorem C12_mttkrps_generated_py : forall (T : dense Z) (As : list (list (list Z))) (R : nat),
+  (1 <= R)%nat -> wf_dense T -> Forall (fun d => 1 <= d)%nat (dshape T) -> fdims Z R As (dshape T) -> (2 <= length (dshape T))%nat ->
+  C12GenMttv.mttkrps_g (ddata T) As (min_split (dshape T)) =
+  NpZ.Ok (map (mttkrp_den 0%Z 1%Z Z.add Z.mul (dshape T) (den_dense 0%Z T) As R) (seq 0 (length (dshape T)))).
+Proof. exact C12GenMttv.mttkrps_generated_py. Qed.
+Print Assumptions C12_mttkrps_generated_py.
+
+(* ... with the split index ALSO computed by the generated tensor.min_split (mttkrps_gen = min_split, then mttkrps_g): every helper call
+   of tensor.mttkrps is then a generated function *)
+Theorem C12_mttkrps_generated_split : forall (T : dense Z) (As : list (list (list Z))) (R : nat),
+  (1 <= R)%nat -> wf_dense T -> Forall (fun d => 1 <= d)%nat (dshape T) -> fdims Z R As (dshape T) -> (2 <= length (dshape T))%nat ->
+  C12GenMttvPy.mttkrps_gen (dshape T) (ddata T) As =
+  NpZ.Ok (map (mttkrp_den 0%Z 1%Z Z.add Z.mul (dshape T) (den_dense 0%Z T) As R) (seq 0 (length (dshape T)))).
+Proof. exact C12GenMttvPy.mttkrps_gen_spec. Qed.
+Print Assumptions C12_mttkrps_generated_split.
+
+(* fg.evaluate's gradient branch `ttb.tensor(Y).mttkrps(model.factor_matrices)` with Y = gradient_handle(data, full) * weights: the
+   generated-helper mttkrps run on the flat F-order value list of the derivative array returns exactly the model eval_G about which
+   C12_gradient / C12_gradient_weighted are stated — any element-wise derivative g, weight array, admissible split index *)
+Theorem C12_evaluate_G_generated : forall (g : Z -> Z -> Z) (K : ktensor Z) (X : dense Z) (w : option (dense Z)) (sp : nat),
+  (1 <= krank K)%nat -> Forall (fun d => 1 <= d)%nat (dshape X) -> fdims Z (krank K) (kfactors K) (dshape X) ->
+  (S sp < length (dshape X))%nat ->
+  C12GenMttv.mttkrps_g (ddata (tabulate (dshape X) (eval_Y 0%Z 1%Z Z.add Z.mul g K X w))) (kfactors K) sp =
+  NpZ.Ok (eval_G 0%Z 1%Z Z.add Z.mul g K X w).
+Proof. exact C12GenMttv.evaluate_G_generated. Qed.
+Print Assumptions C12_evaluate_G_generated.
 
 (* the executable harness model of estimate(lambda_check=True) (weights absorbed into mode 0 when some weight is not 1) is an instance of
    C12_lambda_exact: on every subscript once with unit sample weights it is the exact objective of the WEIGHTED model — the identity the
